@@ -1197,8 +1197,467 @@ namespace
     r.render = n.log.str();
   }
 
+
+  // =====================================================================================================================
+  // C11: an LRA relation literal means its relation (fresh, shared, or constant by root bounds)
+  // =====================================================================================================================
+  void case_c11(pbt::Tape &t, pbt::Result &r, const pbt::Options &o)
+  {
+    Net n;
+    n.res = &r;
+    Gen g{t, n, o};
+    int nv = t.range(1, 5);
+    for (int i = 0; i < nv; ++i) g.lra_vars.push_back(n.new_lra());
+    bool shortcut = false, shared = false, basic = false, derived = false;
+    struct Req { L a, b; int rel; lit p; bool fresh; };
+    std::vector<Req> reqs;
+    int steps = t.range(2, 14);
+    auto root_values = [&]() {
+      std::map<var, lbool> m;
+      for (auto &kv : n.known) m[kv.first] = n.sat.value(kv.first);
+      return m;
+    };
+    for (int st = 0; st < steps && !n.dead && !r.violation; ++st)
+    {
+      unsigned w = t.pick(10);
+      if (w < 6)
+      { // a request
+        L a = g.lra_expr(), b = g.lra_expr();
+        if (!reqs.empty() && t.chance(1, 4))
+        { // an equivalent request: same relation scaled by a positive constant, or sides swapped
+          const Req &q = reqs[t.pick(reqs.size())];
+          mpq_class k = t.flip() ? mpq_class(2) : mpq_class(1, 3);
+          a = qx::lscale(q.a, k);
+          b = qx::lscale(q.b, k);
+        }
+        int rel = t.pick(5);
+        for (auto &tm : a.c) if (n.lra.is_basic(tm.first)) basic = true;
+        for (auto &tm : b.c) if (n.lra.is_basic(tm.first)) basic = true;
+        auto before = root_values();
+        std::vector<z3::expr> none;
+        bool sat_before = n.zcheck(none) == z3::sat;
+        lin la = toLin(a), lb = toLin(b);
+        lit p;
+        switch (rel)
+        {
+        case LT: p = n.lra.new_lt(la, lb); break;
+        case LEQ: p = n.lra.new_leq(la, lb); break;
+        case EQ: p = n.lra.new_eq(la, lb); break;
+        case GEQ: p = n.lra.new_geq(la, lb); break;
+        default: p = n.lra.new_gt(la, lb); break;
+        }
+        n.ensure_internal_numeric();
+        n.log << "  lra " << qx::str(a) << " " << rels(rel) << " " << qx::str(b) << " -> " << ls(p) << "\n";
+        Meaning m;
+        m.kind = Meaning::LRA_REL;
+        m.rel = rel;
+        m.left = a;
+        m.right = b;
+        z3::expr zm = n.zmeaning(m);
+        bool fresh = false;
+        if (variable(p) == FALSE_var || n.sat.value(p) != Undefined)
+        { // constant answer: the root state must entail / refute the relation
+          shortcut = true;
+          bool tv = variable(p) == FALSE_var ? !sign(p) : n.sat.value(p) == True;
+          if (sat_before && n.zcheck({tv ? !zm : zm}) == z3::sat)
+            n.violation(std::string("the request returned the constant ") + (tv ? "true" : "false") + " (" + ls(p) + ") but the root-level constraints do not " +
+                        (tv ? "entail" : "refute") + " " + qx::str(a) + " " + rels(rel) + " " + qx::str(b));
+        }
+        else if (n.is_known(p))
+        { // shared with an earlier request: the two meanings must be equivalent under the root constraints
+          shared = true;
+          if (sat_before && n.zcheck({n.zl(p) != zm}) == z3::sat)
+            n.violation("the request " + qx::str(a) + " " + rels(rel) + " " + qx::str(b) + " returned the existing literal " + ls(p) + " whose earlier meaning is not equivalent");
+        }
+        else
+          fresh = true;
+        // requesting never changes the solutions: values of pre-existing literals unchanged, network still consistent
+        for (auto &kv : before)
+          if (n.sat.value(kv.first) != kv.second)
+            n.violation("requesting a relation literal changed the root value of the pre-existing literal b" + std::to_string(kv.first));
+        n.claim(p, m);
+        if (variable(p) != FALSE_var) g.lra_lits.push_back(p);
+        reqs.push_back({a, b, rel, p, fresh});
+        bool ok = n.sat.propagate();
+        if (!ok)
+        {
+          n.dead = true;
+          if (sat_before && n.zcheck(none) == z3::sat) n.violation("requesting a relation literal made a satisfiable network inconsistent");
+        }
+      }
+      else if (w < 8 && !g.lra_lits.empty())
+      { // tighten the root bounds: assert a literal at root
+        lit p = g.lra_lits[t.pick(g.lra_lits.size())];
+        if (t.chance(1, 3)) p = !p;
+        if (n.sat.value(p) == Undefined)
+        {
+          n.do_new_clause({p});
+          n.settle();
+        }
+      }
+      else if (w < 9 && !g.lra_lits.empty())
+      { // an assume / pop episode: pivots the tableau, so later requests meet basic variables
+        lit p = g.lra_lits[t.pick(g.lra_lits.size())];
+        if (t.flip()) p = !p;
+        if (n.do_assume(p))
+        {
+          std::vector<std::string> f;
+          n.oracle_lra(f, false);
+          for (auto &x : f) n.violation(x);
+          while (!n.sat.root_level()) n.do_pop();
+        }
+      }
+      else if (!g.lra_vars.empty())
+      {
+        L l = g.lra_expr();
+        if (!l.c.empty()) { g.lra_vars.push_back(n.new_lra_derived(l)); derived = true; }
+      }
+      std::vector<std::string> f;
+      n.flush_s2(f);
+      n.flush_lemma_failures(f);
+      n.oracle_values(f);
+      for (auto &x : f) n.violation(x);
+    }
+    // behaviour of the returned literals: assuming l / !l gives values that satisfy / falsify the relation, and the
+    // assumption is refused exactly when the (conjunctive) root state makes it infeasible
+    for (size_t i = 0; i < reqs.size() && !n.dead && !r.violation; ++i)
+    {
+      const Req &q = reqs[i];
+      if (variable(q.p) == FALSE_var) continue;
+      for (int sgn = 0; sgn < 2 && !n.dead && !r.violation; ++sgn)
+      {
+        lit p = sgn ? q.p : !q.p;
+        if (n.sat.value(p) != Undefined) continue;
+        std::vector<z3::expr> qz = {n.zl(p)};
+        bool feas = n.zcheck(qz) == z3::sat;
+        bool ok = n.do_assume(p);
+        bool accepted = ok && n.sat.value(p) == True;
+        std::vector<std::string> f;
+        n.flush_s2(f);
+        n.flush_lemma_failures(f);
+        if (accepted) n.oracle_lra(f, false);
+        for (auto &x : f) n.violation(x);
+        bool disjunctive = false; // a false equality is a disjunction: acceptance does not imply feasibility
+        for (auto &kv : n.meaning)
+          if (kv.second.kind == Meaning::LRA_REL && kv.second.rel == EQ && n.sat.value(kv.first) != Undefined && ((n.sat.value(kv.first) == True) != n.meaning_sign[kv.first]))
+            disjunctive = true;
+        if (accepted && !feas && !disjunctive && !r.violation)
+          n.violation("assuming " + ls(p) + " succeeded although its relation is infeasible together with the root-level constraints");
+        while (!n.sat.root_level()) n.do_pop();
+      }
+    }
+    if (shortcut) r.classes.insert("constant answer from root bounds");
+    if (shared) r.classes.insert("literal shared with an earlier request");
+    if (basic) r.classes.insert("request over a basic variable");
+    if (derived) r.classes.insert("derived variable");
+    r.nontrivial = shortcut || shared || basic;
+    r.render = n.log.str();
+  }
+
+
+  // =====================================================================================================================
+  // C12: difference-logic relation literals and expression queries
+  // =====================================================================================================================
+  void case_c12(pbt::Tape &t, pbt::Result &r, const pbt::Options &o)
+  {
+    Net n;
+    n.res = &r;
+    Gen g{t, n, o};
+    bool real = o.sub == "rdl" ? true : o.sub == "idl" ? false : t.flip();
+    int np = t.range(2, 6);
+    auto &pts = real ? g.rdl_pts : g.idl_pts;
+    for (int i = 0; i < np; ++i) pts.push_back(real ? n.new_rdl() : n.new_idl());
+    // a consistent root state with some bounded and some unbounded points
+    int nroot = t.range(0, 6);
+    for (int i = 0; i < nroot && !n.dead; ++i)
+    {
+      lit p = g.dl_dist(real);
+      if (variable(p) == FALSE_var || n.sat.value(p) != Undefined) continue;
+      if (t.chance(1, 4)) p = !p;
+      std::vector<z3::expr> q = {n.zl(p)};
+      if (n.zcheck(q) != z3::sat) continue; // keep the root state consistent
+      n.do_new_clause({p});
+      n.settle();
+    }
+    if (n.dead) { r.render = n.log.str(); r.discard = true; r.discard_reason = "root state inconsistent"; return; }
+    bool two_var_swapped = false, neg_c = false, strict = false, nonzero_k = false, queried = false, rejected = false;
+    auto coefq = [&]() {
+      static const long num[] = {1, -1, 2, -2, 3, -3, 1, -1};
+      static const long den[] = {1, 1, 1, 1, 1, 1, 2, 2};
+      unsigned i = t.pick(8);
+      return mpq_class(num[i], den[i]);
+    };
+    auto konstq = [&]() {
+      switch (t.pick(4))
+      {
+      case 0: return mpq_class(0);
+      case 1: return mpq_class(t.range(-5, 5));
+      case 2: return mpq_class(t.range(-12, 12));
+      default: return mpq_class(t.range(-9, 9), 2);
+      }
+    };
+    // a difference expression c*x + k or c*(x - y) + k (or a constant), as a pair (left,right) whose difference it is
+    auto gen_pair = [&](L &left, L &right, mpq_class &c, bool &valid_shape) {
+      left = L();
+      right = L();
+      valid_shape = true;
+      c = coefq();
+      mpq_class k = konstq();
+      unsigned shape = t.pick(8);
+      size_t x = pts[t.pick(pts.size() - 1) + 1], y = pts[t.pick(pts.size() - 1) + 1];
+      if (shape == 0) { left.k = k; right.k = konstq(); }
+      else if (shape <= 3)
+      { // one variable: on the left, on the right, or split constants
+        if (t.flip()) { left.c[x] = c; left.k = k; right.k = konstq(); }
+        else { right.c[x] = c; right.k = k; left.k = konstq(); }
+      }
+      else if (shape <= 6)
+      { // two variables: c*x + k  vs  c*y + k'   (difference c*(x-y) + (k-k'))
+        if (x == y) y = pts[(t.pick(pts.size() - 1)) + 1];
+        if (x == y) { left.c[x] = c; left.k = k; right.k = konstq(); }
+        else
+        {
+          if (t.flip()) { left.c[x] = c; right.c[y] = c; }
+          else { left.c[x] = c; left.c[y] = -c; } // both on one side
+          left.k = k;
+          right.k += konstq();
+          if (x > y) two_var_swapped = true;
+        }
+      }
+      else
+      { // outside the documented shapes: must be rejected cleanly
+        valid_shape = false;
+        size_t z = pts[t.pick(pts.size() - 1) + 1];
+        if (x == y || pts.size() < 4) { left.c[x] = 2; right.c[y == x ? pts[1 + (x == pts[1] ? 1 : 0)] : y] = 3; }
+        else { left.c[x] = 1; left.c[y] = 1; if (z != x && z != y) right.c[z] = 1; }
+        L d = qx::lsub(left, right);
+        // it may accidentally be a valid difference expression; decide from the difference
+        valid_shape = d.c.size() <= 1 || (d.c.size() == 2 && d.c.begin()->second == -std::next(d.c.begin())->second);
+      }
+      left.norm();
+      right.norm();
+      if (sgn(c) < 0) neg_c = true;
+      if (sgn(left.k) != 0 || sgn(right.k) != 0) nonzero_k = true;
+    };
+    // exact interval of an expression from the theory's own variable-level distances
+    auto vdist = [&](size_t from, size_t to, E &lo, E &hi) { // bounds of to - from
+      if (real)
+      {
+        auto d = n.rdl.distance(from, to);
+        lo = toE(d.first);
+        hi = toE(d.second);
+      }
+      else
+      {
+        auto d = n.idl.distance(from, to);
+        lo = d.first <= -idl_theory::inf() ? E(Q::ninf()) : E(Q((long)d.first));
+        hi = d.second >= idl_theory::inf() ? E(Q::pinf()) : E(Q((long)d.second));
+      }
+    };
+    auto expr_bounds = [&](const L &d, E &lo, E &hi) -> bool { // d must be a difference expression
+      if (d.c.empty()) { lo = hi = E(Q(d.k)); return true; }
+      E l0, h0;
+      mpq_class c;
+      if (d.c.size() == 1) { vdist(0, d.c.begin()->first, l0, h0); c = d.c.begin()->second; }
+      else if (d.c.size() == 2 && d.c.begin()->second == -std::next(d.c.begin())->second)
+      { // c*(x - y): x - y in distance(y, x)
+        vdist(std::next(d.c.begin())->first, d.c.begin()->first, l0, h0);
+        c = d.c.begin()->second;
+      }
+      else return false;
+      auto sc = [&](const E &v) -> E {
+        if (!v.r.finite()) return (v.r.inf > 0) == (sgn(c) > 0) ? E(Q::pinf()) : E(Q::ninf());
+        return qx::eadd(qx::escale(v, Q(c)), E(Q(d.k)));
+      };
+      if (sgn(c) > 0) { lo = sc(l0); hi = sc(h0); }
+      else { lo = sc(h0); hi = sc(l0); }
+      return true;
+    };
+    auto same_side = [&](const E &got, const E &exp) { return !exp.r.finite() || qx::cmp(got, exp) == 0; };
+
+    int steps = t.range(2, 10);
+    for (int st = 0; st < steps && !n.dead && !r.violation; ++st)
+    {
+      L left, right;
+      mpq_class c;
+      bool valid;
+      gen_pair(left, right, c, valid);
+      L diff = qx::lsub(left, right);
+      lin ll = toLin(left), lr = toLin(right);
+      // normalised constant (what the theory must represent): k / c
+      bool representable = valid;
+      if (!real && valid && !diff.c.empty())
+      {
+        mpq_class kk = diff.k / diff.c.begin()->second;
+        if (kk.get_den() != 1) representable = false;
+      }
+      if (t.chance(2, 3))
+      { // ---- relation literal ------------------------------------------------------------------------------------
+        int rel = t.pick(5);
+        if (rel == LT || rel == GT) strict = true;
+        std::vector<z3::expr> none;
+        bool sat_before = n.zcheck(none) == z3::sat;
+        lit p;
+        bool threw = false;
+        try
+        {
+          if (real)
+            switch (rel)
+            {
+            case LT: p = n.rdl.new_lt(ll, lr); break;
+            case LEQ: p = n.rdl.new_leq(ll, lr); break;
+            case EQ: p = n.rdl.new_eq(ll, lr); break;
+            case GEQ: p = n.rdl.new_geq(ll, lr); break;
+            default: p = n.rdl.new_gt(ll, lr); break;
+            }
+          else
+            switch (rel)
+            {
+            case LT: p = n.idl.new_lt(ll, lr); break;
+            case LEQ: p = n.idl.new_leq(ll, lr); break;
+            case EQ: p = n.idl.new_eq(ll, lr); break;
+            case GEQ: p = n.idl.new_geq(ll, lr); break;
+            default: p = n.idl.new_gt(ll, lr); break;
+            }
+        }
+        catch (const std::invalid_argument &)
+        {
+          threw = true;
+        }
+        n.log << "  " << (real ? "rdl " : "idl ") << qx::str(left) << " " << rels(rel) << " " << qx::str(right) << " -> " << (threw ? "invalid_argument" : ls(p)) << "\n";
+        if (threw)
+        {
+          rejected = true;
+          if (representable)
+            n.violation("a representable difference relation was rejected: " + qx::str(left) + " " + rels(rel) + " " + qx::str(right));
+          continue;
+        }
+        if (!valid)
+        {
+          n.violation("an expression outside the difference-logic shapes was accepted: " + qx::str(left) + " " + rels(rel) + " " + qx::str(right));
+          continue;
+        }
+        if (!representable) continue; // accepted although not representable: nothing is claimed about it
+        Meaning m;
+        m.kind = real ? Meaning::RDL_REL : Meaning::IDL_REL;
+        m.rel = rel;
+        m.left = left;
+        m.right = right;
+        z3::expr zm = n.zmeaning(m);
+        if (variable(p) == FALSE_var || n.sat.value(p) != Undefined)
+        {
+          bool tv = variable(p) == FALSE_var ? !sign(p) : n.sat.value(p) == True;
+          if (sat_before && n.zcheck({tv ? !zm : zm}) == z3::sat)
+            n.violation(std::string("the request returned the constant ") + (tv ? "true" : "false") + " but the network does not " + (tv ? "entail" : "refute") + " " +
+                        qx::str(left) + " " + rels(rel) + " " + qx::str(right));
+          n.claim(p, m);
+          continue;
+        }
+        if (n.is_known(p))
+        {
+          if (sat_before && n.zcheck({n.zl(p) != zm}) == z3::sat)
+            n.violation("the request returned an existing literal with a different meaning");
+          n.claim(p, m);
+          continue;
+        }
+        n.claim(p, m);
+        n.dirty = true;
+        n.settle();
+        // behaviour: assuming the literal / its negation is accepted exactly when feasible, and the distances then agree
+        for (int sg = 0; sg < 2 && !n.dead && !r.violation; ++sg)
+        {
+          lit q = sg ? p : !p;
+          if (n.sat.value(q) != Undefined) continue;
+          bool feas = n.zcheck({n.zl(q)}) == z3::sat;
+          if (rel == EQ && sg == 0) feas = true; // a false equality is a disjunction: acceptance is not a feasibility claim
+          bool ok = n.do_assume(q);
+          bool accepted = ok && n.sat.value(q) == True;
+          std::vector<std::string> f;
+          n.flush_s2(f);
+          n.flush_lemma_failures(f);
+          if (accepted) dl_oracle(n, real, f, false);
+          for (auto &x : f) n.violation(x);
+          if (accepted && !feas && !r.violation)
+            n.violation("assuming " + ls(q) + " (" + (sg ? "" : "not ") + qx::str(left) + " " + rels(rel) + " " + qx::str(right) + ") succeeded although it is infeasible");
+          while (!n.sat.root_level()) n.do_pop();
+        }
+      }
+      else
+      { // ---- expression queries --------------------------------------------------------------------------------------
+        queried = true;
+        E lo, hi;
+        unsigned which = t.pick(3);
+        try
+        {
+          if (which == 0)
+          { // bounds(left - right as one expression)
+            if (!expr_bounds(diff, lo, hi)) continue;
+            lin ld = toLin(diff);
+            E glo, ghi;
+            if (real) { auto b = n.rdl.bounds(ld); glo = toE(b.first); ghi = toE(b.second); }
+            else { auto b = n.idl.bounds(ld); glo = E(Q((long)b.first)); ghi = E(Q((long)b.second)); }
+            n.log << "  bounds(" << qx::str(diff) << ") -> [" << qx::str(glo) << ", " << qx::str(ghi) << "]\n";
+            bool integral = real || (lo.r.finite() ? lo.r.v.get_den() == 1 : true) & (hi.r.finite() ? hi.r.v.get_den() == 1 : true);
+            if (integral && (!same_side(glo, lo) || !same_side(ghi, hi)))
+              n.violation("bounds(" + qx::str(diff) + ") = [" + qx::str(glo) + ", " + qx::str(ghi) + "] but the variable-level distances give [" + qx::str(lo) + ", " + qx::str(hi) + "]");
+          }
+          else if (which == 1)
+          { // distance(from = right, to = left): bounds of left - right
+            if (!expr_bounds(diff, lo, hi)) continue;
+            E glo, ghi;
+            if (real) { auto b = n.rdl.distance(lr, ll); glo = toE(b.first); ghi = toE(b.second); }
+            else { auto b = n.idl.distance(lr, ll); glo = b.first <= -idl_theory::inf() ? E(Q::ninf()) : E(Q((long)b.first)); ghi = b.second >= idl_theory::inf() ? E(Q::pinf()) : E(Q((long)b.second)); }
+            n.log << "  distance(" << qx::str(right) << " -> " << qx::str(left) << ") -> [" << qx::str(glo) << ", " << qx::str(ghi) << "]\n";
+            bool integral = real || (lo.r.finite() ? lo.r.v.get_den() == 1 : true) & (hi.r.finite() ? hi.r.v.get_den() == 1 : true);
+            if (integral && (!same_side(glo, lo) || !same_side(ghi, hi)))
+              n.violation("distance(" + qx::str(right) + ", " + qx::str(left) + ") = [" + qx::str(glo) + ", " + qx::str(ghi) + "] but the variable-level distances give [" + qx::str(lo) + ", " +
+                          qx::str(hi) + "] for the difference");
+          }
+          else
+          { // equates(left, right): possible equality <=> 0 in bounds(left - right)
+            if (left.c.size() > 1 || right.c.size() > 1) continue;
+            if (!expr_bounds(diff, lo, hi)) continue;
+            bool got = real ? n.rdl.equates(ll, lr) : n.idl.equates(ll, lr);
+            bool exp = qx::cmp(lo, E(Q(0))) <= 0 && qx::cmp(hi, E(Q(0))) >= 0;
+            n.log << "  equates(" << qx::str(left) << ", " << qx::str(right) << ") -> " << (got ? "true" : "false") << "\n";
+            if (got != exp)
+              n.violation("equates(" + qx::str(left) + ", " + qx::str(right) + ") = " + (got ? "true" : "false") + " but the difference ranges over [" + qx::str(lo) + ", " + qx::str(hi) + "]");
+          }
+        }
+        catch (const std::invalid_argument &)
+        {
+          rejected = true;
+          n.log << "  query on " << qx::str(left) << " / " << qx::str(right) << " -> invalid_argument\n";
+          bool ints = true;
+          for (auto &tm : diff.c) if (tm.second.get_den() != 1) ints = false;
+          if (diff.k.get_den() != 1 || left.k.get_den() != 1 || right.k.get_den() != 1) ints = false;
+          for (auto &tm : left.c) if (tm.second.get_den() != 1) ints = false;
+          for (auto &tm : right.c) if (tm.second.get_den() != 1) ints = false;
+          if (valid && (real || ints) && which != 2)
+            n.violation("a query on a valid difference expression was rejected: " + qx::str(left) + " / " + qx::str(right));
+        }
+      }
+      std::vector<std::string> f;
+      n.flush_s2(f);
+      n.flush_lemma_failures(f);
+      n.oracle_values(f);
+      for (auto &x : f) n.violation(x);
+    }
+    if (two_var_swapped) r.classes.insert("two variables, larger id first");
+    if (neg_c) r.classes.insert("negative coefficient");
+    if (strict) r.classes.insert("strict relation");
+    if (nonzero_k) r.classes.insert("non-zero constant");
+    if (queried) r.classes.insert("expression query");
+    if (rejected) r.classes.insert("clean rejection");
+    r.classes.insert(real ? "rdl" : "idl");
+    r.nontrivial = two_var_swapped || neg_c || strict || nonzero_k;
+    r.render = n.log.str();
+  }
+
   void dispatch(pbt::Tape &t, pbt::Result &r, const pbt::Options &o)
   {
+    if (o.prop == "C11") { case_c11(t, r, o); return; }
+    if (o.prop == "C12") { case_c12(t, r, o); return; }
     if (o.prop == "C13") case_c13(t, r, o);
     else if (o.prop == "C14") case_c14(t, r, o);
     else case_history(t, r, o);
